@@ -478,7 +478,7 @@ def run(chk, replay=None):
         chk.spec_drift(f"{clause}: implementation-shaped part of the specification not followed (first at record {rid}: {info}); the angle laws hold on the observation family")
 
     chk.part("trace_stats", formulas=len(impl.args), **stats)
-    if not replay:
+    if not replay and not chk.violations and not chk.drift:
         need = ["pt_event", "pt_lattice", "pt_boundary", "pt_adjacent", "pt_massless", "pt_equalmass", "sumrule_instances", "arg_checked", "hat_geom", "scat_geom", "obs"]
         missing = [k for k in need if stats.get(k, 0) == 0]
         if missing:
